@@ -141,6 +141,21 @@ def kw_variant(rng, i):
     return {'threshold_kwargs': th, 'center_extrema': ['peak', 'trough'][(i // 2 + i // 3) % 2]}
 
 
+def with_default_entry(kwlist, k):
+    """Every other per-signal option list leaves ONE later position at the library defaults, written as the empty dictionary {} (a falsy value
+    that is nevertheless "given"): that signal is analysed with the defaults, not with a neighbour's options."""
+    if k % 2 == 0 or not isinstance(kwlist, list):
+        return kwlist
+    if kwlist and isinstance(kwlist[0], list):
+        flat = [(i, j) for i in range(len(kwlist)) for j in range(len(kwlist[i]))][1:]
+        if flat:
+            i, j = flat[k % len(flat)]
+            kwlist[i][j] = {}
+    elif len(kwlist) > 1:
+        kwlist[1 + k % (len(kwlist) - 1)] = {}
+    return kwlist
+
+
 def simulate(delays, W, base=0.02):
     """Completion order of FIFO list scheduling on W workers (what Pool.imap with chunksize 1 does)."""
     free = [0.0] * W
